@@ -18,6 +18,7 @@ CONFIGS = {
     'malformed': ['--features', 'malformed-artifact-compat'],
     'forwarding': ['--features', 'draft-wussler-openpgp-forwarding'],
     'largersa': ['--features', 'large-rsa'],
+    'pqc': ['--features', 'draft-pqc'],
 }
 
 
@@ -202,7 +203,7 @@ def run_property(prop, tier='quick', seed=0, replay=None):
     mod = importlib.import_module('rules.%s' % prop.lower())
     configs = ['default']
     if tier == 'thorough':
-        configs = getattr(mod, 'THOROUGH_CONFIGS', ['default', 'nodefault', 'malformed', 'forwarding', 'largersa'])
+        configs = getattr(mod, 'THOROUGH_CONFIGS', ['default', 'nodefault', 'malformed', 'forwarding', 'largersa', 'pqc'])
     all_obs = []
     meta = dict(configs=[], functions=set(), notes=[], trusted=set(), extra={})
     fatal = None
